@@ -71,6 +71,10 @@ def run_job(job):
         for o in ex.explore(run, pre):
             paths += 1
             if o.exc is not None:
+                from ..harness import exc_origin
+                if exc_origin(o.exc) == "harness":
+                    ob.fail_harness(f"harness raised: {o.exc!r}")
+                    continue
                 ob.prove(f"no-exception[path{paths}]", o.pc, False,
                          cex=lambda m: dict(kind="arith", n=zx.model_value(m, n), mb=zx.model_value(m, mb), nd=nd))
                 continue
